@@ -55,6 +55,8 @@ func New(kind string, variant int, nops int) Thread {
 		return newAsmDerived(variant, nops)
 	case "asmc":
 		return newAsmSibling(variant, nops)
+	case "asma":
+		return newAsmAppender(variant, nops)
 	case "asmw":
 		return newAsmWindow(variant, nops)
 	case "rom":
@@ -470,6 +472,7 @@ var (
 	derivedMu  sync.Mutex // harness bookkeeping only (pairs up the two constructors)
 	derivedSrc *asm.Emitter
 	siblingSrc *asm.Emitter
+	appendSrc  *asm.Emitter
 	windowArr  []byte
 )
 
@@ -569,6 +572,22 @@ func newAsmSibling(v, n int) *asmdT {
 	src := siblingSrc
 	derivedMu.Unlock()
 	return &asmdT{v: v, n: n, kind: "asmc", e: src.Clone(make([]byte, 0x200))}
+}
+
+// ---- one pre-assembled snippet (a common prologue) Appended into two separately created emitters
+
+func newAsmAppender(v, n int) *asmdT {
+	derivedMu.Lock()
+	if v%2 == 0 || appendSrc == nil {
+		appendSrc = buildDerivedSource()
+	}
+	src := appendSrc
+	derivedMu.Unlock()
+	t := &asmdT{v: v, n: n, kind: "asma"}
+	t.e = asm.NewEmitter(make([]byte, 0x200), true)
+	t.e.SetBase(0x7E8000)
+	t.e.Append(src)
+	return t
 }
 
 // ---- two emitters whose targets are adjacent windows of one array (an image patched in two places):
